@@ -32,10 +32,11 @@ EXTENDS Dense, TLC
 
 CONSTANTS Fams,      \* subset of {"classical", "dimer", "mg", "ferro", "chain2", "effH"}
           Ls,        \* chain lengths
-          NVar       \* number of coupling variants per (family, L, sector)
+          NVar,      \* number of coupling variants per (family, L, sector)
+          Twists     \* subset of 0..2: gauge twists making the Hamiltonian complex (0: none), see TwistSeq
 
 VARIABLES stage,     \* 0: choose parameters, 1: build + certify, 2: done
-          par,       \* <<family, L, nup, variant>>
+          par,       \* <<family, L, nup, variant, twist>>
           inst       \* the certified instance
 
 vars == <<stage, par, inst>>
@@ -304,20 +305,38 @@ MakeEffH(var) ==
      H2theta |-> [i \in 1..2 |-> EApply1(EH2(var, i - 1), ETheta2(var, i - 1))],
      full |-> TInner(EB(var, 2), EApply1(EH1(var, 2), EB(var, 2)), TRUE)]      \* <psi|H|psi>, cut at the last site
 
+-----------------------------------------------------------------------------
+(* Complex Hamiltonians.  With the diagonal unitary U = prod_j exp(i phi_j Sz_j), phi_j = tw[j] * pi/2, every S+_i S-_j
+   becomes i^(tw[i]-tw[j]) S+_i S-_j (twk = 1: a uniform twist of pi/2 per bond turns S_i.S_j into
+   Sz_i Sz_j -+ (Sx_i Sy_j - Sy_i Sx_j), a Dzyaloshinskii-Moriya coupling): H' = U H U^dagger is a complex Hermitian,
+   still Sz conserving Hamiltonian whose matrix elements are Gaussian integers (of 4H'),
+       <s|4H'|t> = u_s <s|4H|t> conj(u_t),   u_s = i^(sum_j tw[j] bit_j(s)),
+   with the spectrum of H and the ground vector v'_s = u_s v_s.  TwistCert checks the eigen-equation of the
+   complex matrix directly over the Gaussian integers and |u_s| = 1 (so H' is unitarily equivalent to the certified
+   real H: E0, nondeg and conn carry over). *)
+TwistSeq(twk, n) == [j \in 1..n |-> IF twk = 0 THEN 0 ELSE IF twk = 1 THEN (j - 1) % 4 ELSE ((j - 1) * (j - 1) + 1) % 4]
+Phase(s, tw) == ISumSeq([j \in 1..Len(tw) |-> tw[j] * Bit(s, j - 1)]) % 4
+TwistVec(bs, v, tw) == [q \in 1..Len(bs) |-> GMul(GIPow(Phase(bs[q], tw)), GInt(v[q]))]
+WithTwist(I, twk) ==
+    [fam |-> I.fam, L |-> I.L, nup |-> I.nup, var |-> I.var, terms |-> I.terms, basis |-> I.basis, E0x4 |-> I.E0x4,
+     v |-> I.v, nondeg |-> I.nondeg, ground |-> I.ground, rank |-> I.rank, conn |-> I.conn, cell |-> I.cell,
+     E0cellx4 |-> I.E0cellx4, twk |-> twk, tw |-> TwistSeq(twk, I.L), vc |-> TwistVec(I.basis, I.v, TwistSeq(twk, I.L))]
+
 NoInst == [fam |-> "none"]
 
-Init == stage = 0 /\ par = <<"none", 0, 0, 0>> /\ inst = NoInst
+Init == stage = 0 /\ par = <<"none", 0, 0, 0, 0>> /\ inst = NoInst
 
 Choose ==
     /\ stage = 0
-    /\ \E fam \in Fams, n \in Ls, up \in 0..8, var \in 0..(NVar - 1) :
+    /\ \E fam \in Fams, n \in Ls, up \in 0..8, var \in 0..(NVar - 1), twk \in Twists :
           /\ up <= n /\ ValidPar(fam, n, up)
-          /\ par' = <<fam, n, up, var>>
+          /\ (fam \in {"classical", "effH"} => twk = 0)
+          /\ par' = <<fam, n, up, var, twk>>
     /\ stage' = 1 /\ UNCHANGED inst
 
 Build ==
     /\ stage = 1
-    /\ inst' = IF par[1] = "effH" THEN MakeEffH(par[4]) ELSE Make(par)
+    /\ inst' = IF par[1] = "effH" THEN MakeEffH(par[4]) ELSE WithTwist(Make(par), par[5])
     /\ stage' = 2 /\ UNCHANGED par
 
 Next == Choose \/ Build
@@ -358,6 +377,18 @@ FrustrationFreeCert == (stage = 2 /\ inst.fam \notin {"classical", "effH"}) =>
        /\ \A s \in B : HVec(rest, [x \in B |-> IF x = s THEN 1 ELSE 0], s) = inst.E0x4
        /\ inst.nondeg => inst.rank = Len(inst.basis) - 1
 
+\* complex (twisted) instances: (4H') v' = E0x4 v' over the Gaussian integers, |u_s| = 1
+TwistCert == (stage = 2 /\ inst.fam # "effH") =>
+    LET pos == [s \in BSet(inst) |-> CHOOSE q \in 1..Len(inst.basis) : inst.basis[q] = s]
+        Row(s) == GSumSeq([tt \in 1..Len(inst.terms) |->
+                     LET a == Apply4(inst.terms[tt], s) IN
+                     GSumSeq([x \in 1..Len(a) |->
+                         GScale(a[x][2], GMul(GIPow((Phase(s, inst.tw) - Phase(a[x][1], inst.tw)) % 4), inst.vc[pos[a[x][1]]]))])])
+    IN /\ Len(inst.tw) = inst.L
+       /\ \A s \in BSet(inst) : GAbs2(GIPow(Phase(s, inst.tw))) = 1
+       /\ \A s \in BSet(inst) : Row(s) = GScale(inst.E0x4, inst.vc[pos[s]])
+       /\ (inst.twk = 0) => \A q \in 1..Len(inst.basis) : inst.vc[q] = GInt(inst.v[q])
+
 \* effH: the full contraction <psi|H|psi> does not depend on the bond at which the chain is cut, the two-site
 \* effective Hamiltonian applied to theta2 reproduces it, and H1/H2 are Hermitian whenever all W are
 EffHCert == (stage = 2 /\ inst.fam = "effH") =>
@@ -397,6 +428,7 @@ Expected == /\ (stage = 2 /\ inst.fam \in {"dimer", "ferro", "mg", "chain2"}) =>
      infinite chains ("chain2", engines VUMPS / iDMRG; e0 = E0cellx4 / 8 the exact energy per site):
      V1  max |psi.norm_test()| ~ 0          V2  E_reported = H_MPO.expectation_value(psi) (energy per site)
      V3  E_reported >= e0 - tol             V4  (converged runs) E_reported = e0
+     (twisted instances: H is the complex H' built with the phases i^(tw[i]-tw[j]); v is the complex vector vc)
      P5  two-site engine, mixer on, bond dimension not truncated, enough sweeps, conn (otherwise H has further
          conserved quantities and a product state need not be connected to the ground state at all), and the
          start state is not orthogonal to v (v[s0] # 0; a Krylov eigensolver started in another symmetry sector of H,
